@@ -27,7 +27,7 @@ RULE = ('C03-style histories on Cache / FanoutCache in which handle events are i
         'distinct_nontrivial = distinct (container, event kind, position class) cells + golden (directory, key type, '
         'value mode) cells')
 DISTINCT = ('event_cells', 'golden_cells')
-REQUIRED = ('calls_judged', 'events_close', 'events_second_handle', 'events_pickle', 'events_thread', 'events_process',
+REQUIRED = ('handles_opened_by_spelling_4', 'handles_opened_by_spelling_5', 'calls_judged', 'events_close', 'events_second_handle', 'events_pickle', 'events_thread', 'events_process',
             'events_fork', 'events_reset', 'events_opened_under_exclusive_lock', 'rollback_journal_histories', 'settings_read_back', 'fanout_histories', 'deque_events', 'index_events', 'django_events',
             'golden_items_read', 'golden_rows_compared', 'golden_schema_compared', 'jsondisk_histories')
 ASSUMPTIONS = ('the Disk class is a constructor argument, not a stored setting: non-pickle reopen events pass the same '
@@ -205,10 +205,25 @@ def cache_history(dc, sc, res, rng, kind, label):
 
     def fresh(**kw):
         import pathlib
-        how = rng.randrange(4)
-        spelled = [d, d + '/', os.path.join(os.path.dirname(d), '.', os.path.basename(d)), pathlib.Path(d)][how]
+        how = rng.randrange(6)
+        spelled = [d, d + '/', os.path.join(os.path.dirname(d), '.', os.path.basename(d)), pathlib.Path(d),
+                   '${VF_C18_DIR}/' + os.path.basename(d), '~/' + os.path.basename(d)][how]
         res.count('handles_opened_by_spelling_%d' % how)
-        return dc.Cache(spelled, **kw) if kind == 'cache' else dc.FanoutCache(spelled, shards=shards, **kw)
+        # spellings 4 and 5 name the directory through an environment variable / the home directory, which mean this
+        # directory only while the handle is being opened: the handle (and what is pickled from it) keeps the directory
+        saved = {k: os.environ.get(k) for k in ('VF_C18_DIR', 'HOME')}
+        if how == 4:
+            os.environ['VF_C18_DIR'] = os.path.dirname(d)
+        elif how == 5:
+            os.environ['HOME'] = os.path.dirname(d)
+        try:
+            return dc.Cache(spelled, **kw) if kind == 'cache' else dc.FanoutCache(spelled, shards=shards, **kw)
+        finally:
+            for k, v in saved.items():
+                if v is None:
+                    os.environ.pop(k, None)
+                else:
+                    os.environ[k] = v
 
     per_shard_limit = {'value': settings.get('size_limit', 2**30) / shards}
 
